@@ -304,8 +304,12 @@ func runBehaviour(b behaviour, tr *vlib.Trace) {
 	do := func(op opStep) (res string, code int) {
 		defer func() {
 			if r := recover(); r != nil {
-				res, code = "panic", 0
+				// A panic inside the code under test may leave its locks held: nothing sensible can follow.
+				// Record it and stop the whole run (the check reports "inconclusive", never a verdict).
 				tr.Emit(map[string]any{"ev": "panic", "what": fmt.Sprint(r)})
+				tr.Close()
+				fmt.Printf("driver: panic in %s: %v\n", op.Op, r)
+				os.Exit(3)
 			}
 		}()
 		switch op.Op {
